@@ -315,4 +315,59 @@ theorem c4b_paidNow_iff {s : State} (hA : RetAll s) (u : Nat) (q : Part) :
     rw [hg]
     simp [hun]
 
+-- ---------------------------------------------------------------------------------------------
+-- a user account only receives
+
+/-- what a user account receives from the settlement of bet `x`: the payment as bettor, the fee as its receiver -/
+def c4b_betCredit (a mc : Nat) (x : Bet) : Int :=
+  (if a = x.creator then c4b_betPaid x else 0) + (if a = (if x.result = BR_REFUNDED then x.creator else mc) then x.fee else 0)
+
+/-- what a user account receives from the payment of participation `q`: the payment as depositor, the fee as its
+    receiver (depositor or market creator) -/
+def c4b_partCredit (a : Nat) (bets : List Bet) (u : Nat) (m : Market) (q : Part) : Int :=
+  (if a = q.addr then c4b_partPaid bets u m q else 0) + (if a = c4b_partFeeTo bets u m q then q.fee else 0)
+
+theorem c4b_betShare_user (a mc : Nat) (x : Bet) (h3 : a ≠ ACC_POOL) (h4 : a ≠ ACC_BETFEE) :
+    c4b_betShare a mc x = c4b_betCredit a mc x := by
+  unfold c4b_betShare c4b_betCredit
+  rw [if_neg h3, if_neg h4]
+  omega
+
+theorem c4b_partShare_user (a : Nat) (bets : List Bet) (u : Nat) (m : Market) (q : Part) (h3 : a ≠ ACC_POOL)
+    (h4 : a ≠ ACC_HOUSEFEE) : c4b_partShare a bets u m q = c4b_partCredit a bets u m q := by
+  unfold c4b_partShare c4b_partCredit
+  rw [if_neg h3, if_neg h4]
+  omega
+
+theorem c4b_endBlockO_user {s s' : State} (hA : RetAll s) (hI : BetIdx s) (h : endBlockO s = some s') (a : Nat)
+    (hmod : isModuleAcc a = false) :
+    getBal s'.bal a - getBal s.bal a =
+      sumBy (fun x => match getMarket s x.market with
+          | some m => c4b_betCredit a m.creator x
+          | none => 0) (s'.bets.filter (c4b_settledNow s))
+      + sumBy (fun b => match getMarket s b.uid with
+          | some m => sumBy (c4b_partCredit a s'.bets b.uid m) (b.parts.filter (c4b_paidNow s b.uid))
+          | none => 0) s'.books := by
+  obtain ⟨n1, n2, n3⟩ := isModuleAcc_false_ne hmod
+  rw [c4b_endBlockO_diff_closed hA hI h a]
+  have e1 : ∀ x ∈ s'.bets.filter (c4b_settledNow s),
+      (match getMarket s x.market with | some m => c4b_betShare a m.creator x | none => 0)
+      = (match getMarket s x.market with | some m => c4b_betCredit a m.creator x | none => 0) := by
+    intro x _
+    cases getMarket s x.market with
+    | none => rfl
+    | some m => exact c4b_betShare_user a m.creator x n1 n2
+  have e2 : ∀ b ∈ s'.books,
+      (match getMarket s b.uid with
+        | some m => sumBy (c4b_partShare a s'.bets b.uid m) (b.parts.filter (c4b_paidNow s b.uid)) | none => 0)
+      = (match getMarket s b.uid with
+        | some m => sumBy (c4b_partCredit a s'.bets b.uid m) (b.parts.filter (c4b_paidNow s b.uid)) | none => 0) := by
+    intro b _
+    cases getMarket s b.uid with
+    | none => rfl
+    | some m =>
+      simp only
+      exact sumBy_congr _ _ _ (fun q _ => c4b_partShare_user a s'.bets b.uid m q n1 n3)
+  rw [sumBy_congr _ _ _ e1, sumBy_congr _ _ _ e2]
+
 end Sge.Core
